@@ -35,6 +35,7 @@ _spec.loader.exec_module(base)
 
 READY = b'220 2.0.0 ready for tls\r\n'
 LONG_LOCALIP = '2001:0db8:1111:2222:3333:4444:5555:6666'
+CLIENT_ADDR = 'client@example.net'
 
 
 def build(R, repo, builddir):
@@ -51,6 +52,18 @@ def build(R, repo, builddir):
         open(pem + '.tmp', 'wb').write(open(crt, 'rb').read() + open(key + '.rsa', 'rb').read())
         os.rename(pem + '.tmp', pem)
     h['pem'] = pem
+    # a CA for client certificates (control/clientca.pem) and a client certificate whose emailAddress is listed in control/tlsclients
+    ca, cakey, cc, cckey = (os.path.join(builddir, n) for n in ('clientca.crt', 'clientca.key', 'client.crt', 'client.key'))
+    if not os.path.exists(cc):
+        cmds = [['openssl', 'req', '-x509', '-newkey', 'rsa:2048', '-nodes', '-keyout', cakey, '-out', ca, '-subj', '/CN=Test Client CA', '-days', '3650'],
+                ['openssl', 'req', '-newkey', 'rsa:2048', '-nodes', '-keyout', cckey, '-out', cc + '.csr', '-subj', '/CN=Client One/emailAddress=' + CLIENT_ADDR],
+                ['openssl', 'x509', '-req', '-in', cc + '.csr', '-CA', ca, '-CAkey', cakey, '-CAcreateserial', '-out', cc + '.tmp', '-days', '3650']]
+        for c in cmds:
+            rc, out = R.sh(c, timeout=120)
+            if rc != 0:
+                raise RuntimeError('openssl failed: ' + out[-2000:])
+        os.rename(cc + '.tmp', cc)
+    h.update(clientca=ca, clientcert=cc, clientkey=cckey)
     return h
 
 
@@ -143,6 +156,13 @@ def run_case(h, R, line, idx):
             shutil.copy(h['pem'], os.path.join(d, 'control', certname))
         elif cfg['cert'] == 'bad':
             open(os.path.join(d, 'control', certname), 'w').write('this is not a certificate\n')
+        # the third relay entitlement (tls_verify()): cfg tlsclients=1 / clientca=1 install control/tlsclients (the address of the
+        # client certificate) / control/clientca.pem; cfg pha=1: the client offers TLS 1.3 post-handshake authentication;
+        # cfg ccert=listed: it has the certificate to answer the request with
+        if cfg.get('tlsclients') == '1':
+            open(os.path.join(d, 'control', 'tlsclients'), 'w').write(CLIENT_ADDR + '\n')
+        if cfg.get('clientca') == '1':
+            shutil.copy(h['clientca'], os.path.join(d, 'control', 'clientca.pem'))
         env.update(TCPREMOTEPORT='1234', TCPLOCALPORT=cfg['port'], QMAILQUEUE=h['qq'], QQ_MSG=os.path.join(d, 'qq.msg'),
                    QQ_ENV=os.path.join(d, 'qq.env'), QQ_PLAN=os.path.join(d, 'qqplan'), QQ_COUNT=os.path.join(d, 'qqcount'))
         a, b = socket.socketpair()
@@ -169,6 +189,8 @@ def run_case(h, R, line, idx):
                     if not x:
                         break
                     st['tls'] += x
+                # what the client's TLS stack has to say on its own (the answer to a post-handshake certificate request) stays in
+                # the outgoing BIO and travels in front of the next segment: sent at once it would race with the server's own progress
             elif st['hsraw'] is not None:
                 st['hsraw'] += data
                 st['inb'].write(data)
@@ -228,6 +250,10 @@ def run_case(h, R, line, idx):
             ctx = ssl.SSLContext(ssl.PROTOCOL_TLS_CLIENT)
             ctx.check_hostname = False
             ctx.verify_mode = ssl.CERT_NONE
+            if cfg.get('pha') == '1':
+                ctx.post_handshake_auth = True
+            if cfg.get('ccert') == 'listed':
+                ctx.load_cert_chain(h['clientcert'], h['clientkey'])
             if bad:
                 # a ClientHello that an RSA-only server cannot answer
                 ctx.maximum_version = ssl.TLSVersion.TLSv1_2
@@ -341,7 +367,7 @@ def run_case(h, R, line, idx):
                     i += 9 + n + 1
             return r
         for e, m in zip(recs(env['QQ_ENV']), recs(env['QQ_MSG'])):
-            res.append('Q' + R.hx(e) + '/' + R.hx(mask_cipher(base.mask_date(m))))
+            res.append('Q' + R.hx(e) + '/' + R.hx(mask_cipher(base.mask_date(m, cfg['port'] == '587'))))
         stderr = open(os.path.join(d, 'stderr'), 'rb').read()
         if b'ERROR: AddressSanitizer' in stderr or b'runtime error' in stderr:
             return 'CRASH'
